@@ -14,7 +14,7 @@ import (
 )
 
 func init() {
-	register("C04", "(a) histories of add/remove on a real hSet over names {privmsg, PRIVMSG, PrivMsg, join, 001, x} with removal of first/middle/last/only handlers and re-adds: after every step the forward walk from start and the backward walk from end of every list are compared with the model, the Spec (name -> registration-ordered list) is evaluated on them, and getHandlers/dispatch lists for every case variant are compared; (b) sessions on a real connection with foreground and background handlers registered and removed from outside and from inside running handlers (self-removal, registration during the own event), invocation counters compared with the multiset the Spec predicts; non-trivial = history contains a removal; distinct by history", c04)
+	register("C04", "(a) histories of add/remove on a real hSet over names {privmsg, PRIVMSG, PrivMsg, join, 001, x} with removal of first/middle/last/only handlers and re-adds: after every step the forward walk from start and the backward walk from end of every list are compared with the model, the Spec (name -> registration-ordered list) is evaluated on them, and getHandlers/dispatch lists for every case variant are compared; (b) sessions on a real connection with foreground and background handlers registered and removed from outside and from inside running handlers (self-removal, registration during the own event), invocation counters compared with the multiset the Spec predicts; (c) sessions in which 1..4 other goroutines register and remove handlers as fast as they can while 100..600 events are dispatched: the permanent handlers run exactly once per event and every Handle / Remove call returns; non-trivial = history contains a removal / every session; distinct by history", c04)
 }
 
 func idsStr(l []int) string {
@@ -94,6 +94,7 @@ func c04(c *Ctx) {
 	}
 	c.RunCases(cases)
 	c04Sessions(c)
+	c04Churn(c)
 }
 
 func orDash(s string) string {
@@ -101,6 +102,95 @@ func orDash(s string) string {
 		return "-"
 	}
 	return s
+}
+
+// c04Churn: registration and removal from other goroutines while events are being dispatched. A handler that is
+// registered for the whole session must run exactly once per event, every Handle / Remove call must return, and
+// the handlers the churning goroutines register and remove at once run at most once per event.
+func c04Churn(c *Ctx) {
+	for s := 0; s < c.Pick(3, 25); s++ {
+		churners := c.R.Range(1, 4)
+		events := c.R.Range(100, 600)
+		desc := fmt.Sprintf("C04 churn session %d: %d goroutines registering and removing handlers (own and same event names) while %d NOTICE events are dispatched to a permanent foreground and a permanent background handler", s, churners, events)
+		c.Journal(desc)
+		rp := map[string]interface{}{"op": "churn-session", "churners": churners, "events": events}
+		sess, err := newSession(nil, nil)
+		if err != nil {
+			c.Res.Inconclusive++
+			continue
+		}
+		conn := sess.conn
+		var fg, bg, tmpMax int64
+		conn.HandleFunc("notice", func(*client.Conn, *client.Line) { atomic.AddInt64(&fg, 1) })
+		conn.HandleBG("NOTICE", client.HandlerFunc(func(*client.Conn, *client.Line) { atomic.AddInt64(&bg, 1) }))
+		stop := make(chan struct{})
+		var wg sync.WaitGroup
+		var ops int64
+		for g := 0; g < churners; g++ {
+			wg.Add(1)
+			name := []string{"NOTICE", "Notice", "JOIN", "x"}[(g+s)%4]
+			useBG := g%2 == 1
+			go func() {
+				defer wg.Done()
+				for {
+					select {
+					case <-stop:
+						return
+					default:
+					}
+					var n int64
+					h := client.HandlerFunc(func(*client.Conn, *client.Line) {
+						if v := atomic.AddInt64(&n, 1); v > atomic.LoadInt64(&tmpMax) {
+							atomic.StoreInt64(&tmpMax, v)
+						}
+					})
+					var r client.Remover
+					if useBG {
+						r = conn.HandleBG(name, h)
+					} else {
+						r = conn.Handle(name, h)
+					}
+					r.Remove()
+					atomic.AddInt64(&ops, 2)
+				}
+			}()
+		}
+		for i := 0; i < events; i++ {
+			sess.srv.SendLine(fmt.Sprintf(":n!u@h NOTICE me :ev%d", i))
+		}
+		delivered := waitFor(func() bool {
+			return atomic.LoadInt64(&fg) >= int64(events) && atomic.LoadInt64(&bg) >= int64(events)
+		}, 20*time.Second)
+		close(stop)
+		churnDone := make(chan struct{})
+		go func() { wg.Wait(); close(churnDone) }()
+		returned := true
+		select {
+		case <-churnDone:
+		case <-time.After(5 * time.Second):
+			returned = false
+		}
+		time.Sleep(20 * time.Millisecond)
+		f, b := atomic.LoadInt64(&fg), atomic.LoadInt64(&bg)
+		c.Res.Traces++
+		c.Res.Evaluations++
+		c.Dist("tag:churn-session")
+		if k := fmt.Sprintf("churn/%d/%d/%d", churners, events, c.Seed); !c.seen[k] {
+			c.seen[k] = true
+			c.Res.Distinct++
+		}
+		switch {
+		case !delivered || !returned:
+			c.SpecFail("spec", desc, "", fmt.Sprintf("stuck: after 20s the permanent foreground handler ran %d times and the background one %d times for %d events; Handle/Remove calls returned: %v (%d done)", f, b, events, returned, atomic.LoadInt64(&ops)), rp)
+			go sess.close()
+			continue
+		case f != int64(events) || b != int64(events):
+			c.SpecFail("spec", desc, "", fmt.Sprintf("permanent handlers ran %d (fg) and %d (bg) times for %d events", f, b, events), rp)
+		case atomic.LoadInt64(&tmpMax) > int64(events):
+			c.SpecFail("spec", desc, "", fmt.Sprintf("a churned handler ran %d times for %d events", tmpMax, events), rp)
+		}
+		sess.close()
+	}
 }
 
 // c04Sessions: exactly-once invocation on a real connection, with handlers that add and remove handlers.
